@@ -35,9 +35,10 @@ class Scenario:
 
     def endpoint(self):
         ep = Endpoint(self.client, **self.cfg)
-        for name, a, k in self.prefix:
+        for item in self.prefix:
+            name, a, k = item[:3]
             o = ep.call(name, *a, **k)
-            if not o.ok:
+            if not o.ok and len(item) < 4:     # (a 4th element marks a call that is expected to be refused)
                 raise RuntimeError('scenario prefix call %s failed: %r' % (name, o.exc))
         return ep
 
